@@ -563,3 +563,32 @@ def ord5(ctx: Ctx):
     ctx.ob(rule, fi.qual, "screened characters", screened >= set(NFKC_SCREEN) and raises and nfkc,
            f"the screen looks for {''.join(sorted(screened))!r} (NFKC: {nfkc}, raises ValueError: {raises}); the statement requires '/?#@:'",
            where(fi, fi.node), sample="".join(sorted(screened)))
+
+
+def h7(ctx: Ctx):
+    """The host encoder receives the host text as it was written: no call site case-folds (or otherwise rewrites the case of)
+    its argument first. Only the encoder knows where a zone id starts - it lower-cases the name and the address and keeps
+    the zone verbatim - so `host.lower()` in front of it destroys what the statement says is kept."""
+    model = ctx.model
+    rule = "H7"
+    ctx.rule(rule, floor=3, what="no call site case-folds the host before the encoder sees it")
+    n = 0
+    for fi in pkg_funcs(model):
+        if fi.module != "_url":
+            continue
+        r = analyze(model, fi)
+        sites = {}
+        for e in r.by_kind("call"):
+            if not (e.func[0] == "global" and e.func[2] == ENC.split(".")[-1] and e.args):
+                continue
+            a = e.args[0]
+            folded = [t for t in walk(a) if t[0] == "call" and t[1][0] == "attr" and t[1][2] in ("lower", "upper", "casefold", "swapcase", "title", "capitalize")]
+            sites.setdefault(id(e.node), [e.node, show(e.value)[:70], []])[2].append(bool(folded))
+        for node, cons, flags in sites.values():
+            n += 1
+            ctx.instance(rule)
+            ctx.ob(rule, fi.qual, cons, not any(flags),
+                   "the host is case-folded before it is given to the encoder: the zone id of an IP literal ('%Eth0'), which the "
+                   "encoder keeps verbatim, is lower-cased on this route only", where(fi, node), sample="argument as written")
+    if not n:
+        raise AnalysisError(f"H7: no call of {ENC} found (anchor vanished)")
